@@ -132,6 +132,10 @@ impl<T: Write + Read + Seek> E57Writer<T> {
         self.writer
             .write_all(xml_bytes)
             .write_err("Failed to write XML data")?;
+
+        // Remember where the data ends, the writer continues there if it is used again
+        self.writer.align()?;
+        let end_offset = self.writer.physical_position()?;
         let phys_length = self.writer.physical_size()?;
 
         // Add missing values in header at start of the the file
@@ -143,6 +147,10 @@ impl<T: Write + Read + Seek> E57Writer<T> {
         };
         self.writer.physical_seek(0)?;
         header.write(&mut self.writer)?;
+
+        // Go back behind the XML: anything written after this call (even a second
+        // finalize) must be appended and never overwrite the existing sections
+        self.writer.physical_seek(end_offset)?;
         self.writer
             .flush()
             .write_err("Failed to flush writer at the end")
